@@ -17,6 +17,7 @@ from vf import gen as G, oracle as O, props as P, snapshot as S
 from vf.checks.common import Case, call, exc_text
 
 ID = "C07"
+TECHNIQUE = "runtime monitoring: truth-by-construction variants compared with == / !=, oracle re-validation of every variant"
 LEVEL = "exploration"
 RULE = ("random regions of all kinds (polygons int/Fraction/float, circles, Bezier blobs of degree 2-3, mixed-degree "
         "chains, connected, disjoint, unbounded) x 4-7 equal variants and 3-5 unequal variants; all ordered pairs compared "
